@@ -191,8 +191,11 @@ func serveScenario(v6 bool, reads [][]byte) (outs [][]byte) {
 				u := peer.(*net.UDPAddr)
 				enc := m.ToBytes()
 				mu.Lock()
-				invs = append(invs, invRec{orderKey4(reads, m), [][]byte{u.IP, be16b(uint16(u.Port)), enc}})
+				invs = append(invs, invRec{orderKey4(reads, m), [][]byte{append(net.IP{}, u.IP...), be16b(uint16(u.Port)), enc}})
 				mu.Unlock()
+				// the peer is the handler's to use: a handler that answers by unicast sets the address it was given to
+				// the one it offers - no other handler's peer moves with it
+				u.IP = net.IP{192, 0, 2, byte(len(enc))}
 			}
 			sopts := []server4.ServerOpt{server4.WithConn(conn)}
 			switch len(reads) % 3 {
